@@ -139,7 +139,7 @@ func (fn *wfn) panicStmt(s ast.Stmt, ind string) string {
 		fn.t.fail(s, "call of a function named panic that is not the built-in")
 	}
 	if tv, ok := fn.info().Types[c.Args[0]]; !ok || tv.Value == nil {
-		fn.t.fail(s, "panic with an argument that is not a constant")
+		return fn.panicValue(c, ind) // world_values.go
 	}
 	return ind + "Panic\n"
 }
